@@ -14,7 +14,7 @@ use crate::peers::{Act, HttpPeer, Script, Seen};
 use crate::runner::{violation, RunCtx, RunReport, Stats, Verdict};
 use crate::tlspeer::{self, ConnectProxy, ProxyLog, TlsLog, TlsPeer};
 
-pub const CELLS: u64 = 4 * 2 * 2 * 2 * 2 * 3 * 3;
+pub const CELLS: u64 = 4 * 2 * 2 * 2 * 3 * 3 * 3;
 
 #[derive(Clone, Copy, Debug, PartialEq, Eq)]
 enum Chain {
@@ -38,14 +38,27 @@ enum Place {
     Sibling,
 }
 
+const OTHER_CA_PEM: &str = include_str!("../../../certs/otherca.pem");
+
 #[cfg(feature = "native")]
-fn ca_cert() -> native_tls::Certificate {
-    native_tls::Certificate::from_pem(tlspeer::CA_PEM.as_bytes()).expect("CA pem")
+fn cert_of(pem: &str) -> native_tls::Certificate {
+    native_tls::Certificate::from_pem(pem.as_bytes()).expect("CA pem")
 }
 
 #[cfg(all(feature = "rustls-backend", not(feature = "native")))]
-fn ca_cert() -> rustls::pki_types::CertificateDer<'static> {
-    rustls_pemfile::certs(&mut tlspeer::CA_PEM.as_bytes()).next().unwrap().unwrap()
+fn cert_of(pem: &str) -> rustls::pki_types::CertificateDer<'static> {
+    rustls_pemfile::certs(&mut pem.as_bytes()).next().unwrap().unwrap()
+}
+
+/// which root the configuration under test adds
+#[derive(Clone, Copy, Debug, PartialEq, Eq)]
+enum Root {
+    None,
+    /// the CA that signed the "chain to added root" fixtures
+    Ours,
+    /// an unrelated CA; in these cells another session that added *our* CA (same flags) completes a
+    /// handshake first, so any state shared between sessions shows up as a wrongly accepted peer
+    OtherAfterDecoy,
 }
 
 fn ok_script(body: &str) -> Script {
@@ -67,7 +80,8 @@ pub fn scenario(g: &mut G, ctx: &RunCtx) -> RunReport {
     let name_matches = take(2) == 0;
     let accept_certs = take(2) == 1;
     let accept_hosts = take(2) == 1;
-    let root_added = take(2) == 1;
+    let root = [Root::None, Root::Ours, Root::OtherAfterDecoy][take(3) as usize];
+    let root_added = root != Root::None;
     let route = [Route::Direct, Route::ViaConnect, Route::HttpsProxy][take(3) as usize];
     let place = [Place::Session, Place::Request, Place::Sibling][take(3) as usize];
     let fixture = format!(
@@ -82,7 +96,8 @@ pub fn scenario(g: &mut G, ctx: &RunCtx) -> RunReport {
     );
     // effective settings of the request under test
     let (eff_certs, eff_hosts, eff_root) = if place == Place::Sibling { (false, false, false) } else { (accept_certs, accept_hosts, root_added) };
-    let chain_ok = chain == Chain::ToAddedRoot && eff_root;
+    // the unrelated CA is the issuer of the "unknown issuer" fixtures: adding it makes exactly those chains valid
+    let chain_ok = eff_root && ((chain == Chain::ToAddedRoot && root == Root::Ours) || (chain == Chain::UnknownIssuer && root == Root::OtherAfterDecoy));
     let want_ok = eff_certs || (chain_ok && (name_matches || eff_hosts));
 
     let sim = Sim::new(ctx.sim_config());
@@ -130,6 +145,22 @@ pub fn scenario(g: &mut G, ctx: &RunCtx) -> RunReport {
             sim.add_listener(proxy_ip, 3129, lat, Some(Box::new(move |i| mk(i.conn))));
         }
     }
+    // decoy origin for the prior session (always presents the good certificate)
+    {
+        let dip: IpAddr = "10.0.0.7".parse().unwrap();
+        sim.add_host("a.test", vec![dip]);
+        let dlog = Arc::new(Mutex::new(TlsLog::default()));
+        let dseen = Arc::new(Mutex::new(Seen::default()));
+        sim.add_listener(
+            dip,
+            443,
+            lat,
+            Some(Box::new(move |i| {
+                let inner = HttpPeer::new(Arc::new(|_r, _c| ok_script("decoy")), dseen.clone());
+                Box::new(TlsPeer::new("good", Box::new(inner), dlog.clone(), i.conn))
+            })),
+        );
+    }
     let url = match route {
         Route::Direct | Route::ViaConnect => "https://secure.test/private",
         Route::HttpsProxy => "http://plain.test/private",
@@ -143,18 +174,32 @@ pub fn scenario(g: &mut G, ctx: &RunCtx) -> RunReport {
             Route::HttpsProxy => pb = pb.http_proxy(url::Url::parse("https://proxy.test:3129").unwrap()),
         }
         session.proxy_settings(pb.build());
+        let my_root = || if root == Root::Ours { cert_of(tlspeer::CA_PEM) } else { cert_of(OTHER_CA_PEM) };
+        let mut decoy_ok = true;
+        if root == Root::OtherAfterDecoy {
+            // another session, same flags, OUR root: completes a handshake before the request under test
+            let mut other = attohttpc::Session::new();
+            other.proxy_settings(attohttpc::ProxySettings::builder().build());
+            other.danger_accept_invalid_certs(accept_certs);
+            other.danger_accept_invalid_hostnames(accept_hosts);
+            other.add_root_certificate(cert_of(tlspeer::CA_PEM));
+            decoy_ok = other.get("https://a.test/decoy").send().map(|r| r.status().as_u16() == 200).unwrap_or(false);
+        }
+        if !decoy_ok {
+            return Err("decoy-session-failed".to_string());
+        }
         if place == Place::Session {
             session.danger_accept_invalid_certs(accept_certs);
             session.danger_accept_invalid_hostnames(accept_hosts);
             if root_added {
-                session.add_root_certificate(ca_cert());
+                session.add_root_certificate(my_root());
             }
         }
         if place == Place::Sibling {
             // a sibling request gets the flags and the root; it must not affect the request under test
             let mut sib = session.get(url).danger_accept_invalid_certs(accept_certs).danger_accept_invalid_hostnames(accept_hosts);
             if root_added {
-                sib = sib.add_root_certificate(ca_cert());
+                sib = sib.add_root_certificate(my_root());
             }
             let _prepared = sib.prepare();
         }
@@ -162,7 +207,7 @@ pub fn scenario(g: &mut G, ctx: &RunCtx) -> RunReport {
         if place == Place::Request {
             rb = rb.danger_accept_invalid_certs(accept_certs).danger_accept_invalid_hostnames(accept_hosts);
             if root_added {
-                rb = rb.add_root_certificate(ca_cert());
+                rb = rb.add_root_certificate(my_root());
             }
         }
         match rb.send() {
@@ -179,7 +224,7 @@ pub fn scenario(g: &mut G, ctx: &RunCtx) -> RunReport {
     let mut stats = Stats::default();
     stats.absorb(&out.history);
     let plaintext_at_peer: usize = tls_log.lock().unwrap().sessions.iter().map(|s| s.plaintext_in).sum();
-    let tag = format!("{:?}:{:?}:name={}:certs={}:hosts={}:root={}:{:?}", route, chain, name_matches, accept_certs, accept_hosts, root_added, place);
+    let tag = format!("{:?}:{:?}:name={}:certs={}:hosts={}:root={:?}:{:?}", route, chain, name_matches, accept_certs, accept_hosts, root, place);
     let verdict = match &out.result {
         None => violation("hang", "torn down"),
         Some(Err(m)) => violation("panic", m.clone()),
